@@ -6,6 +6,11 @@ package cache
 
 //@ immutable httpLRUCache: cache, mu
 //@ immutable dispatcher: zoneSize, hitForPass, list, store
+//@ typeinv httpLRUCache(l) by newHTTPLRUCache: l.cache != nil && l.mu != nil
+//@ typeinv httpCache(hc) by NewHTTPCache: hc.mu != nil
+//@ typeinv dispatcher(d) by NewDispatcher: len(d.list) == d.zoneSize && d.zoneSize >= 1
+//@     && (forall i int :: 0 <= i && i < len(d.list) ==> d.list[i] != nil)
+//@ axiom [default-dispatchers]: defaultDispatchers != nil && defaultDispatchers.m != nil
 
 //@ func newHTTPLRUCache(size int) (c *httpLRUCache)
 //@   nopanic
@@ -122,6 +127,7 @@ package cache
 //@   requires [recv] hc != nil && hc.mu != nil
 //@   requires [unlocked] !anyheld(hc.mu)
 //@   requires [tok] $tok[hc] == 0
+//@   nopanic
 //@   modifies hc.status, hc.chanList, hc.response, hc.createdAt, hc.expiredAt, $tok[hc], $clock, $regs, $recv, $recv_total, $owed, $expbase[hc], cells(chan struct{})
 //@   loop 0: modifies hc.status, hc.chanList, hc.response, hc.createdAt, hc.expiredAt, $tok[hc], $clock, $regs, $recv, $recv_total, $owed, $expbase[hc], cells(chan struct{})
 //@   loop 0: invariant [locks] $held == old($held)
@@ -130,8 +136,10 @@ package cache
 //@   loop 0: invariant [tok0]  (done != nil || status != StatusFetching) ==> $tok[hc] == 0
 //@   loop 0: invariant [hit]   done == nil ==> ((status == StatusHit ==> response != nil) && (status != StatusHit ==> response == nil))
 //@   loop 0: invariant [clock] $clock >= old($clock)
+//@   loop 0: invariant [owed]  $owed == old($owed)
 //@   loop 0: invariant [wait]  $regs - old($regs) == $recv_total - old($recv_total) + ((done != nil) ? 1 : 0)
 //@   ensures [recv]    $regs - old($regs) == $recv_total - old($recv_total)
+//@   ensures [owed]    $owed == old($owed)
 //@   ensures [domain]  status == StatusFetching || status == StatusHitForPass || status == StatusHit
 //@   ensures [token]   status == StatusFetching ==> $tok[hc] == 1
 //@   ensures [notoken] status != StatusFetching ==> $tok[hc] == 0
@@ -219,6 +227,7 @@ package cache
 //@   atunlock [keep]     hc.response == at(lock0, hc.response) && hc.createdAt == at(lock0, hc.createdAt)
 //@   loop 0: modifies $sent, $sent_total
 //@   loop 0: invariant [idx]  -1 <= $idx && $idx < len(list)
+//@   loop 0: invariant [distinct] forall i, j int :: 0 <= i && i < j && j < len(list) ==> list[i] != list[j]
 //@   loop 0: invariant [sent] forall k int :: 0 <= k && k <= $idx ==> $sent[list[k]] == at(lock0, $sent)[list[k]] + 1
 //@   loop 0: invariant [rest] forall k int :: $idx < k && k < len(list) ==> $sent[list[k]] == at(lock0, $sent)[list[k]]
 //@   loop 0: invariant [count] $sent_total == at(lock0, $sent_total) + $idx + 1
@@ -242,6 +251,7 @@ package cache
 //@                         $sent[at(lock0, hc.chanList[i])] == at(lock0, $sent)[at(lock0, hc.chanList[i])] + 1
 //@   loop 0: modifies $sent, $sent_total
 //@   loop 0: invariant [idx]  -1 <= $idx && $idx < len(list)
+//@   loop 0: invariant [distinct] forall i, j int :: 0 <= i && i < j && j < len(list) ==> list[i] != list[j]
 //@   loop 0: invariant [sent] forall k int :: 0 <= k && k <= $idx ==> $sent[list[k]] == at(lock0, $sent)[list[k]] + 1
 //@   loop 0: invariant [rest] forall k int :: $idx < k && k < len(list) ==> $sent[list[k]] == at(lock0, $sent)[list[k]]
 //@   loop 0: invariant [count] $sent_total == at(lock0, $sent_total) + $idx + 1
@@ -269,3 +279,15 @@ package cache
 //@   requires [unlocked] !anyheld(hc.mu)
 //@   modifies $clock, hc.status, hc.chanList, hc.response, hc.createdAt, hc.expiredAt, cells(chan struct{})
 //@   nopanic
+
+//@ func (d *dispatcher) GetHTTPCache(key []byte) (hc *httpCache)
+//@   requires [recv] d != nil
+//@   requires [nolocks] nolocks()
+//@   nopanic
+//@   ensures [nonnil] hc != nil
+//@   ensures [locks]  nolocks()
+
+//@ func (d *dispatcher) GetHitForPass() (ttl int)
+//@   requires [recv] d != nil
+//@   nopanic
+//@   ensures [def] ttl == d.hitForPass
